@@ -251,6 +251,42 @@ pub fn case_for(seed: u64, tier: Tier, run: u64) -> Case {
         let j = below(&mut rng, i + 1);
         members.swap(i, j);
     }
+    // position-aware cancellation: tuples of copies of one proof whose shifts
+    // c_i * d (on an unabsorbed final scalar) satisfy sum c_i = 0 AND
+    // sum pos_i * c_i = 0 (and for the 4-tuple also sum pos_i^2 * c_i = 0), so
+    // that they cancel under weights that are affine (quadratic) in the position
+    if ns > 0 && label == "all-honest" && chance(&mut rng, 1, 2) {
+        let i = below(&mut rng, ns);
+        let slot = 3 + below(&mut rng, 2);
+        let sc = |k: i64| if k >= 0 { S::U(k as u64) } else { S::N((-k) as u64) };
+        let mk = |k: i64| Member { stmt: i, proof: i, tamper: Tamper::ScAdd(slot, sc(k)) };
+        members.retain(|m| m.stmt != i);
+        if chance(&mut rng, 1, 2) {
+            // three positions p0 < p1 < p2 with coefficients (p2-p1, -(p2-p0), p1-p0)
+            let total = members.len() + 3;
+            let mut ps: Vec<usize> = vec![];
+            while ps.len() < 3 {
+                let p = below(&mut rng, total);
+                if !ps.contains(&p) {
+                    ps.push(p);
+                }
+            }
+            ps.sort();
+            let (p0, p1, p2) = (ps[0] as i64, ps[1] as i64, ps[2] as i64);
+            let coefs = [p2 - p1, -(p2 - p0), p1 - p0];
+            for (p, c) in ps.iter().zip(coefs.iter()) {
+                members.insert(std::cmp::min(*p, members.len()), mk(*c));
+            }
+            label = "affine-weight-cancelling-triple".into();
+        } else {
+            // four consecutive positions with coefficients (1, -3, 3, -1)
+            let at = below(&mut rng, members.len() + 1);
+            for (o, c) in [1i64, -3, 3, -1].iter().enumerate() {
+                members.insert(at + o, mk(*c));
+            }
+            label = "quadratic-weight-cancelling-quadruple".into();
+        }
+    }
     let need = sessions.iter().map(|s| shape_of(&s.st).3).max().unwrap_or(1);
     let mut cap = gen_cap_history(&mut rng, need);
     if ns > 1 && chance(&mut rng, 1, 25) {
@@ -303,4 +339,58 @@ pub fn replay(case: &Value) -> Vec<Violation> {
     let curve = case.sessions.get(0).map(|s| s.st.curve).unwrap_or(Curve::Secq);
     with_curve!(curve, G, run_case::<G>(0, &case, &mut st));
     st.violations
+}
+
+pub fn shrink(case: &Value) -> Vec<Value> {
+    let Ok(c) = serde_json::from_value::<Case>(case.clone()) else { return vec![] };
+    let mut out = vec![];
+    // fewer members
+    for i in 0..c.members.len() {
+        let mut d = c.clone();
+        d.members.remove(i);
+        out.push(to_value(&d));
+    }
+    // drop sessions nobody refers to
+    for s in (0..c.sessions.len()).rev() {
+        if c.members.iter().any(|m| m.stmt == s || m.proof == s) {
+            continue;
+        }
+        let mut d = c.clone();
+        d.sessions.remove(s);
+        d.wfaults.remove(s);
+        for m in d.members.iter_mut() {
+            if m.stmt > s { m.stmt -= 1; }
+            if m.proof > s { m.proof -= 1; }
+        }
+        out.push(to_value(&d));
+    }
+    // honest members instead of tampered ones, no witness faults
+    for i in 0..c.members.len() {
+        if !matches!(c.members[i].tamper, Tamper::None) {
+            let mut d = c.clone();
+            d.members[i].tamper = Tamper::None;
+            out.push(to_value(&d));
+        }
+    }
+    for i in 0..c.wfaults.len() {
+        if c.wfaults[i].is_some() {
+            let mut d = c.clone();
+            d.wfaults[i] = None;
+            out.push(to_value(&d));
+        }
+    }
+    // simpler statements (only for sessions without a positional witness fault)
+    for i in 0..c.sessions.len() {
+        if c.wfaults[i].is_some() {
+            continue;
+        }
+        for (b, _) in shrink_session(&c.sessions[i]).into_iter().take(12) {
+            let mut d = c.clone();
+            d.sessions[i] = b;
+            let need = d.sessions.iter().map(|s| shape_of(&s.st).3).max().unwrap_or(1);
+            d.cap = vec![need];
+            out.push(to_value(&d));
+        }
+    }
+    out
 }
